@@ -429,25 +429,26 @@ def single_item_cache(
     if func is None:
         return lambda f: single_item_cache(f, valid_for_seconds=valid_for_seconds)
 
-    cache = {"last_args": None, "last_kwargs": None, "last_result": None, "last_time": 0}
+    # One immutable entry (args, kwargs, result, time). It is read with a single load and
+    # replaced with a single store, so a concurrent caller can never pair the arguments of
+    # one call with the result of another.
+    cache = (None, None, None, 0)
 
     @wraps(func)
     def wrapper(*args, **kwargs):
         nonlocal cache
         current_time = time.time()
 
+        last_args, last_kwargs, last_result, last_time = cache
         if (
-            cache["last_args"] == args
-            and cache["last_kwargs"] == kwargs
-            and current_time - cache["last_time"] <= valid_for_seconds
+            last_args == args
+            and last_kwargs == kwargs
+            and current_time - last_time <= valid_for_seconds
         ):
-            return cache["last_result"]
+            return last_result
 
         result = func(*args, **kwargs)
-        cache["last_args"] = args
-        cache["last_kwargs"] = kwargs
-        cache["last_result"] = result
-        cache["last_time"] = current_time
+        cache = (args, kwargs, result, current_time)
 
         return result
 
